@@ -25,8 +25,15 @@ if seeds:
     for m in seeds:
         d = json.load(open(m))
         out.append(f"| {os.path.basename(os.path.dirname(m))} | {d.get('property')} | {str(d.get('summary', '')).replace('|', '/')[:300]} — needs: {str(d.get('needs_to_manifest', '')).replace('|', '/')[:200]} | {d.get('caught_by', 'not yet run')} |")
+harm = sorted(glob.glob(os.path.join(ROOT, "harmless", "*", "meta.json")))
+if harm:
+    out.append("\n**Behaviour-preserving rewrites** (false-alarm test; written by fresh sub-agents that saw only the property text; `harmless/<id>/` with `patch.diff`, an equivalence program `equiv.py` whose digest I confirmed to be identical on unchanged and rewritten code, `meta.json`; result of `bin/harmlesstest`: `green` = check exit 0, `tie-broken` = a proof / the translator tie broke and no failing input was found (allowed by the brief, price of the tie), `FALSE-ALARM` = a failing input was reported although behaviour is unchanged):\n")
+    out.append("| rewrite | property | what was rewritten | verdict |\n|---|---|---|---|")
+    for m in harm:
+        d = json.load(open(m))
+        out.append(f"| {os.path.basename(os.path.dirname(m))} | {d.get('property')} | {str(d.get('summary', '')).replace('|', '/').replace(chr(10), ' ')[:260]} | {d.get('verdict', 'not yet run')} |")
 text = open(os.path.join(ROOT, "DESIGN.md"), encoding="utf-8").read()
 new = re.sub(r"<!-- BEGIN GENERATED TABLES -->.*<!-- END GENERATED TABLES -->",
              lambda _: "<!-- BEGIN GENERATED TABLES -->\n" + "\n".join(out) + "\n<!-- END GENERATED TABLES -->", text, flags=re.S)
 open(os.path.join(ROOT, "DESIGN.md"), "w", encoding="utf-8").write(new)
-print("tables updated:", len([e for e in kf if e['kind'] == 'fixed']), "fixed,", len([e for e in kf if e['kind'] == 'finding']), "findings,", len(seeds), "seeded")
+print("tables updated:", len([e for e in kf if e['kind'] == 'fixed']), "fixed,", len([e for e in kf if e['kind'] == 'finding']), "findings,", len(seeds), "seeded,", len(harm), "harmless")
